@@ -296,6 +296,22 @@ def r3(ctx):
                    "ban|unguarded", "handle_rpc_response bans a responder without evidence of unsolicited records", loc=b.loc(t.line))
         a = fmt_short(prov.operand(t.args[1]))
         rule.check(a == "node_address", "the banned address is the responder's", "ban|who", "handle_rpc_response bans %s" % a, loc=b.loc(t.line))
+    # a ban takes effect whatever the list held before: ban() overwrites both entries with the expiry it is given (an `entry().or_insert`
+    # keeps a stale, already expired entry and the responder is unbanned by the next sweep)
+    bb = facts.one(r"crate::permit_ban::PermitBanList::ban$")
+    rule.analysed(bb)
+    bp = Prov(bb, facts)
+    tn = bb.local_name(3) or "time_to_unban"
+    stored = {}
+    for bi, t in bb.calls():
+        if callee_matches(t, r"HashMap::<.*>::insert$", r"HashMap::insert$") and len(t.args) == 3:
+            stored[fmt_short(bp.operand(t.args[0]))] = (fmt_short(bp.operand(t.args[1])), fmt_short(bp.operand(t.args[2])))
+    sn, an = bb.local_name(1) or "self", bb.local_name(2) or "node_address"
+    okb = stored.get("%s.ban_ips" % sn, ("", ""))[1] == tn and stored.get("%s.ban_nodes" % sn, ("", ""))[1] == tn and \
+        "%s.socket_addr" % an in stored.get("%s.ban_ips" % sn, ("", ""))[0] and stored.get("%s.ban_nodes" % sn, ("", ""))[0] == "%s.node_id" % an
+    rule.check(okb, "PermitBanList::ban overwrites the ip and the node entry with the expiry given", "ban|stored",
+               "PermitBanList::ban does not unconditionally store the new expiry for the responder's ip and node id (found %s): an older entry decides how long "
+               "the ban lasts" % stored, loc=bb.loc(bb.line))
     # the evidence is looked at before it is thrown away: in the ENR-request branch the "more than one record" test counts the records as
     # they were received - a retain that drops the foreign records first makes the test blind to them
     retains = [bi for bi, t in b.calls() if callee_matches(t, r"vec::Vec::<.*>::retain$", r"Vec::retain$")]
